@@ -50,7 +50,7 @@ type ChildSpec struct {
 	DieDelayMs    int    `json:"die_delay_ms,omitempty"`  // delay between the fatal request and the death
 	HangGetState  bool   `json:"hang_getstate,omitempty"` // after the idle state was reported once GetState never answers, the first such call is fatal
 	Wrap          bool   `json:"wrap,omitempty"`          // the task leader is a wrapper; the device is its child and SURVIVES the wrapper's death, keeping the connection open
-	User          bool   `json:"user,omitempty"` // the command info names a user (the current one): prepareTaskCmd's credential branch
+	User          bool   `json:"user,omitempty"`          // the command info names a user (the current one): prepareTaskCmd's credential branch
 	BadCommand    bool   `json:"bad_command,omitempty"`
 	Noise         bool   `json:"noise,omitempty"`
 }
@@ -86,9 +86,9 @@ type Case struct {
 	// filled by the batch child
 	UserName string `json:"user_name,omitempty"` // Child.User and the harness runs as root
 	Port     int    `json:"port,omitempty"`
-	Token string `json:"token,omitempty"`
-	Dir   string `json:"dir,omitempty"`
-	Bin   string `json:"bin,omitempty"`
+	Token    string `json:"token,omitempty"`
+	Dir      string `json:"dir,omitempty"`
+	Bin      string `json:"bin,omitempty"`
 }
 
 func (c *Case) controllable() bool { return c.Kind == "direct" || c.Kind == "fairmq" }
@@ -97,7 +97,7 @@ func (c *Case) opBoundMs(op string) int {
 	if c.controllable() && op == "kill" {
 		return boundFactor * ctlKillWorstMs
 	}
-	if c.controllable() && op == "transition" {
+	if c.controllable() && (op == "transition" || op == "bigtransition") {
 		return boundFactor * 10000 // TRANSITION_TIMEOUT, responsive children only
 	}
 	return boundFactor * escalationMs
@@ -507,7 +507,7 @@ func ctlTemplates(kind string) []template {
 	// killed, the startup timeout strikes. The request itself is one the device rejects (STOP with a
 	// source state it is not in), so it does not interfere; what is judged is that nothing crashes.
 	storm := func(r *rand.Rand, spanMs int) Step {
-		st := Step{Op: "storm", Evt: "STOP", Src: "RUNNING", Dst: "CONFIGURED", PayloadKB: u(r, 3000, 6000)}
+		st := Step{Op: "storm", Evt: "STOP", Src: "RUNNING", Dst: "CONFIGURED", PayloadKB: u(r, 1200, 2600)}
 		for t := u(r, 0, 120); t < spanMs; t += u(r, 90, 170) {
 			st.Offsets = append(st.Offsets, t)
 		}
